@@ -63,3 +63,29 @@ Definition ainst_check (o : oracle) (c : ainst_case) : bool :=
   | (name, e, v, dt, obs) => out_obs (assert_instance (rx_of o) teq0 name e v dt) obs
   end.
 Definition ainst_mismatches (o : oracle) (cs : list ainst_case) : list N := failing (ainst_check o) cs.
+
+(* ---- the Callable describer (Model/DescribeCallable.v) ---- *)
+From PcoreV Require Import Model.DescribeCallable.
+
+(* what px.VerifDescribeTyped returned (class, path, presence of the carried types), or a crash of it *)
+Inductive cobserved := COList (ms : list tmismatch) | COCrash.
+Definition cres_obs (r : res (list tmismatch)) (o : cobserved) : bool :=
+  match r, o with
+  | Ok ms, COList ms' => list_eqb tmismatch_eqb ms ms'
+  | Fault _, COCrash => true
+  | _, _ => false
+  end.
+Definition is_ok {A} (r : res A) : bool := match r with Ok _ => true | Fault _ => false end.
+
+(* (subject name, expected Callable, actual, observed IsAssignable, observed structured description,
+    px.DescribeMismatch returned a text (did not crash), observed AssertType) *)
+Definition callable_case := (str * cty * actual * bool * cobserved * bool * aobserved)%type.
+Definition callable_check (o : oracle) (c : callable_case) : bool :=
+  match c with
+  | (name, e, a, oasg, obs, text_returned, aobs) =>
+      Bool.eqb (casg_actual (rx_of o) e a) oasg &&
+      cres_obs (idesc_callable (rx_of o) teq0 e a (subject_path name)) obs &&
+      Bool.eqb (is_ok (describe_mismatch_callable (rx_of o) teq0 name e a)) text_returned &&
+      out_obs (assert_type_callable (rx_of o) teq0 name e a) aobs
+  end.
+Definition callable_mismatches (o : oracle) (cs : list callable_case) : list N := failing (callable_check o) cs.
